@@ -186,7 +186,8 @@ impl ChannelMonitorImpl {
     fn closure_conf_target(&self) -> ConfirmationTarget { unimplemented!() }
     #[verifier::external_body]
     pub fn queue_latest_holder_commitment_txn_for_broadcast<B: BroadcasterInterface, F: FeeEstimator, L: Logger>(&mut self, broadcaster: &B, fee_estimator: &LowerBoundedFeeEstimator<F>, logger: &WithContext<L>, require_funding_seen: bool)
-        ensures final(self).best_block == old(self).best_block, final(self).onchain_events_awaiting_threshold_conf == old(self).onchain_events_awaiting_threshold_conf
+        ensures final(self).best_block == old(self).best_block, final(self).onchain_events_awaiting_threshold_conf == old(self).onchain_events_awaiting_threshold_conf,
+            final(self).alternative_funding_confirmed == old(self).alternative_funding_confirmed
     { unimplemented!() }
 
     // block_confirmed (matures events, generates claims) only reads best_block (checked by reading it): frame assumed
@@ -256,6 +257,8 @@ impl ChannelMonitorImpl {
     final(self).best_block == fork_point,
     final(self).onchain_events_awaiting_threshold_conf@ == kept_le(old(self).onchain_events_awaiting_threshold_conf@, fork_point.height as int),
     forall|k: int| 0 <= k < final(self).onchain_events_awaiting_threshold_conf@.len() ==> (#[trigger] final(self).onchain_events_awaiting_threshold_conf@[k]).height <= fork_point.height,
+//@ensures P C11 a-reorg-forgets-the-confirmation-of-a-spliced-funding-transaction-exactly-when-the-block-that-confirmed-it-is-above-the-fork-point
+    final(self).alternative_funding_confirmed == (match old(self).alternative_funding_confirmed { Some(c) => if c.1 > fork_point.height { None } else { Some(c) }, None => None }),
 //@rw R6e
     self.onchain_events_awaiting_threshold_conf.retain(|ref $h:ident| $body);
 //@with
@@ -311,6 +314,8 @@ impl ChannelMonitorImpl {
     forall|k: int| 0 <= k < final(self).onchain_events_awaiting_threshold_conf@.len() ==> old(self).onchain_events_awaiting_threshold_conf@.contains(#[trigger] final(self).onchain_events_awaiting_threshold_conf@[k]),
     (forall|k: int| 0 <= k < old(self).onchain_events_awaiting_threshold_conf@.len() ==> (#[trigger] old(self).onchain_events_awaiting_threshold_conf@[k]).txid != *txid)
         ==> final(self).onchain_events_awaiting_threshold_conf@ == old(self).onchain_events_awaiting_threshold_conf@,
+//@ensures P C11 unconfirming-the-spliced-funding-transaction-forgets-its-confirmation-and-unconfirming-any-other-transaction-leaves-it
+    final(self).alternative_funding_confirmed == (match old(self).alternative_funding_confirmed { Some(c) => if c.0 == *txid { None } else { Some(c) }, None => None }),
 //@loop 1 iter=it
     invariant_except_break removed_height is None,
         forall|j: int| 0 <= j < it.index@ ==> (#[trigger] self.onchain_events_awaiting_threshold_conf@[j]).txid != *txid,
